@@ -102,6 +102,10 @@ func (f *Frame) call(in ssa.Instruction, cc *ssa.CallCommon, st *State) []Term {
 			return f.inline(cl.fn, args, cl.binds, st, in)
 		}
 		res := f.opaqueCall(in, cc, nil, args, st)
+		// a function-valued parameter is recorded under the parameter's name
+		if p, ok := cc.Value.(*ssa.Parameter); ok && !st.dead() {
+			f.recordCall(st, cc, res, p.Name())
+		}
 		// a function value loaded from a struct field is recorded under the field's name
 		if ld, ok := cc.Value.(*ssa.UnOp); ok {
 			if fa, ok := ld.X.(*ssa.FieldAddr); ok {
@@ -726,6 +730,32 @@ func (f *Frame) applyContract(in ssa.Instruction, cc *ssa.CallCommon, callee *ss
 		}
 	}
 	f.callsiteObligations(in, callee.Name(), blk.QualName(), nil, args, st)
+	// a callee that panics only under a stated condition: at this call the
+	// condition must be excluded (or be covered by the caller's own
+	// "panics only if" clause); afterwards the call has returned, so the
+	// condition did not hold
+	if len(blk.PanicsIf) > 0 && !f.spec {
+		var conds []Term
+		for _, cl := range blk.PanicsIf {
+			conds = append(conds, c.evalSpecFn(cl.Fn, args, st, snapOf(st), f)[0])
+		}
+		mayPanic := c.define("maypanic", Or(conds...))
+		goal := Not(mayPanic)
+		text := "callee " + blk.QualName() + " panics only if " + blk.PanicsIf[0].Text + ": excluded at this call"
+		top := f.topFrame()
+		if top.block != nil && len(top.block.PanicsIf) > 0 {
+			var cs []Term
+			for _, cl := range top.block.PanicsIf {
+				cs = append(cs, c.evalSpecFn(cl.Fn, top.argVals, top.entry, snapOf(top.entry), top)[0])
+			}
+			goal = Or(Not(mayPanic), Or(cs...))
+			text += " (or covered by the caller's own panics-only-if)"
+		}
+		if !(top.block != nil && top.block.Flags["panics-assumed"]) {
+			c.addObl(&Obligation{Name: c.oblName(f.label, "panic-unreachable"), Kind: "panic-unreachable", Fn: f.label, Pos: f.posOf(pos), Text: text, Reach: st.Reach, Goal: goal})
+		}
+		st.assume(c, Not(mayPanic))
+	}
 	// recursion: the callee's measure must be below the measure of the
 	// function under verification whenever the call can lead back to it
 	// (direct, mutual, or through a closure of that function)
@@ -780,6 +810,9 @@ func (f *Frame) applyContract(in ssa.Instruction, cc *ssa.CallCommon, callee *ss
 		pa := all
 		if cl.RecvOnly {
 			pa = all[:1]
+		}
+		if cl.Assumed {
+			c.note("assumed", "assumed postcondition of "+blk.QualName()+": "+cl.Text)
 		}
 		t := c.evalSpecFn(cl.Fn, pa, st, old, f)[0]
 		st.assume(c, t)
